@@ -43,6 +43,7 @@ def union(*alts):
 _BUILTIN = {
     'int': INT, 'bool': BOOL, 'None': NONE, 'float': FLOAT, 'Fraction': FRAC,
     'str': STR, 'Any': ANY, 'object': ANY,
+    'numstr': ('numstr',),     # symbolic numeral spelling (pyvc/strings.py)
 }
 
 
